@@ -207,10 +207,35 @@ func sameRefilters(rng *rand.Rand, sc *Tree, share int) {
 	sc.Acts = out
 }
 
+// passersBy: short-lived plain subscribers that come and go on the publishers
+// of a script while its writes are in flight.
+func passersBy(rng *rand.Rand, sc *Tree, share int) {
+	pubs := []int{-1}
+	id := 0
+	var out []TAct
+	for _, a := range sc.Acts {
+		out = append(out, a)
+		if a.Op == "mknode" {
+			switch a.Kind {
+			case "clone", "clonef":
+				pubs = append(pubs, id)
+			}
+			id++
+		}
+		if (a.Op == "apply" || a.Op == "delete") && rng.Intn(share) == 0 {
+			out = append(out, TAct{Op: "passerby", Node: pubs[rng.Intn(len(pubs))], Ms: rng.Intn(4)})
+		}
+	}
+	sc.Acts = out
+}
+
 func genC06(g GenCtx) interface{} {
 	sc := genC06base(g).(*Tree)
 	if g.Idx%4 == 2 {
 		sameRefilters(g.Rng, sc, 4)
+	}
+	if g.Idx%4 == 1 {
+		passersBy(g.Rng, sc, 2)
 	}
 	return sc
 }
@@ -404,6 +429,21 @@ func genC10(g GenCtx) interface{} {
 			}
 		}
 	}
+	if sc.Bufsiz <= 16 && rng.Intn(4) == 0 {
+		// a consumer that never reads gives up at the very moment its buffer has
+		// filled for the first time, with the next event already on its way
+		id := b.add(-1, "sub", TAct{Reader: "stalled"})
+		sc.Acts = append(sc.Acts, TAct{Op: "settle"})
+		ns, name := randKey(rng, nkeys)
+		apply := func() TAct { return TAct{Op: "apply", NS: ns, Name: name, Labels: randLabels(rng)} }
+		for i := 0; i < sc.Bufsiz; i++ {
+			sc.Acts = append(sc.Acts, apply())
+			if (i+1)%burst == 0 {
+				sc.Acts = append(sc.Acts, TAct{Op: "settle"})
+			}
+		}
+		sc.Acts = append(sc.Acts, TAct{Op: "settle"}, apply(), TAct{Op: "close", Node: id, Async: true}, apply(), TAct{Op: "settle"})
+	}
 	sc.Acts = append(sc.Acts, TAct{Op: "check"})
 	// no starvation strategies here: a starved publisher overflows its own feed,
 	// which is not what the property is about
@@ -434,6 +474,13 @@ func mixedNode(b *treeBuilder, rng *rand.Rand, maxDepth int) {
 }
 
 func genC11(g GenCtx) interface{} {
+	if g.Idx%16 == 9 {
+		// several independent trees and a join across them, one of them dead (or
+		// dying alone) when the join is built
+		j := genJoin(g, joinKinds[(g.Idx/16)%len(joinKinds)], false)
+		j.DeadBase, j.SrcCancelAtStep = pick(g.Rng, "src", "mid", "dst", "dst"), 0
+		return &Tree{Prop: g.Prop, Join: j}
+	}
 	sc, rng := baseTree(g)
 	sc.PeriodMs = pickInt(rng, 0, 0, 100, 1000)
 	sc.ListLatMs = [2]int{pickInt(rng, 0, 0, 20), pickInt(rng, 0, 0, 20)}
